@@ -571,12 +571,22 @@ impl G {
             o.unknown = self.unknown_map();
             outputs.push(o);
         }
+        let mut unknown = self.unknown_map();
+        // now and then a PSBT larger than 64 KiB (the frame allows 128 KiB): the writer's u32 length prefix and the
+        // reader must agree above the 16-bit boundary too
+        if self.budget >= 85_000 && self.rng.chance(1, 16) {
+            let n = self.rng.range(65_000, 76_000) as usize;
+            self.spend(n + 8);
+            unknown.insert(raw::Key { type_value: 0x7e, key: vec![0x4c] }, self.rng.vec(n));
+            self.shape.push('L');
+            self.events.push("psbt.over_64k");
+        }
         let psbt = Psbt {
             unsigned_tx,
             version: 0,
             xpub: Default::default(),
             proprietary: self.proprietary_map(),
-            unknown: self.unknown_map(),
+            unknown,
             inputs,
             outputs,
         };
